@@ -193,6 +193,10 @@ def check(ctx):
     clamp_regions(ctx)
     set_value_sanitised(ctx)
     decode_assignment(ctx)
+    # which value goes to which design-variable node: the fixed values are merged back into the vector at their own
+    # positions (same consumer clauses as C15)
+    from .c15 import consumers as _consumers
+    _consumers(ctx)
     from ..rules import shared as _sh
     _sh.check_constructor_store(ctx)     # stored values are per graph object: a later decode never rewrites them
     # memoisation on the decode path that assigns the values: keys must cover what the stored value depends on
